@@ -110,3 +110,38 @@ PROPS["C05"]["level_note"] += " Partial: the property's second sentence (bytes r
 PI("C18", "Deferred functions and pooled objects are settled exactly once",
    "Theorems (Props/C18.v): running the deferred list runs every registered function exactly once, in registration order, stamped with the number of writes made, and empties the list; Reset releases every held pooled object exactly once in acquisition order and nothing stays held. Each run executes histories of renders and resets on one context with harness modifiers that defer functions (unique tags) and acquire pooled objects at top level, in loops, in includes to depth 3, before and after exit; the event log of the real engine (writes of the outermost writer, registrations, runs, acquisitions, releases) is checked against the property and against the model's log.",
    "5 C18")
+
+P("C04",
+  title="Lookups always see the latest registration; Parse returns its own source's tree",
+  technique="Rocq proof of a refinement between a Gallina model of db.go (index maps + slot array + checksum shortcut of Parse) and a list-of-registrations specification, for every operation history; model tied to the code by V-mode correspondence on generated histories (fresh registry per history through a verif-tagged reset hook)",
+  level_text=("Theorems (Props/C04.v): for every history, every observation of the model (Parse, render by key / by ID / with fallback / through an include list) equals the specification's (C04_lookup_refines), given only that the checksum is injective on the history's own sources; Parse always yields a tree of its own source (C04_parse_own_source) — and the unchecked checksum shortcut is shown to return a foreign tree (the repaired defect); unknown names are not-found and leave the registry untouched; representation invariant for every reachable registry. Both injectivity-free statements are refuted by a concrete colliding checksum. "
+              "Each run executes histories over 3 keys x 3 IDs x 4 sources (biased to replace-and-restore) on the real registry and compares every step with the paired two-map reference (shrinking failures) and with the Gallina model."),
+  level_note="Trusted: Coq kernel + vm_compute, Go harness, the verif-tagged registry reset hook. Assumed: crc64 is injective on the sources of a history (checked for the generated universe by the real checksums handed to the model); crc64 collisions can be constructed and would make Parse return a foreign tree — outside the property's small universe, stated as the theorem's hypothesis.",
+  design_ref="5 C04", trusted_base=[KERNEL, VMODE, HARNESS, "modelled, not verified: Go maps as association lists, crc64 as an injective function on the universe of sources, sync.RWMutex (C06)"],
+  assumptions=["checksum injective on the sources of the history", "templates of the histories are static text, so the rendered output identifies the registered source"])
+
+P("C12",
+  title="Parse is total and accepts exactly the properly nested templates",
+  technique="Rocq proof that a Gallina transcription of parseTpl/processCtl's counter-and-snapshot nesting algorithm accepts exactly the Dyck words over if/for/switch (C12_nesting, both directions), and that the tag scanner partitions every byte string and never runs out of fuel; tied to the code by V-mode correspondence of acceptance on generated skeletons and their single-tag mutations, plus exhaustive argument lists and mutation fuzzing with a panic/hang oracle",
+  level_text=("Theorems (Props/C12.v): parse_skel sk = true <-> balanced sk = true for every tag word (missing, surplus and crossed closers are rejected); the scanner's tokens concatenate back to the source, an unterminated tag yields the EOF error, the fuel |src|+1 always suffices. "
+              "Each run parses well-nested skeletons to depth 5, every single block-tag deletion, sampled insertions and swaps (real acceptance vs the Dyck predicate and vs the model), unterminated tags, ALL argument lists over an 11-symbol alphabet up to length 4 (5 in thorough), and mutated repository/generated templates under a watchdog."),
+  level_note="Partial by nature: the ~45 regular expressions that classify a tag's text are Go's regexp (modelled as a classification function); totality of Parse on arbitrary bytes rests on the mutation/exhaustive runs (which support, not replace, the theorems about scanner and nesting).",
+  design_ref="5 C12", trusted_base=[KERNEL, VMODE, HARNESS, "modelled, not verified: Go regexp (classification of tag text), cutComments/cutFmt pre-processing (tied by the parser correspondence of C01)"],
+  assumptions=["tag texts of the generated skeletons are canonical spellings"])
+
+P("C13",
+  title="Rendering never panics or hangs inside dyntpl, whatever the template and data",
+  technique="Rocq theorems over the total interpreter model (error conditions surface as error values; the fault theorem C17 covers all trees) + correspondence of the model with the real engine on generated templates; exhaustive-style sweep of every built-in modifier/helper over argument tuples of every kind and mutation fuzzing of accepted templates with a recover/watchdog oracle",
+  level_text=("Theorems (Props/C13.v): in the (total, by construction) interpreter model an unknown node type, an unknown condition helper, a missing template and a missing helper argument evaluate to the corresponding error value for every context and writer; every pure built-in answers with a value or one of four errors. "
+              "Each run compares model and real engine on generated templates of all constructs, calls every registered built-in modifier (and alias) with 33 carrier values of every kind x 37 argument tuples in pipe and call form, every condition helper on every value, and renders mutated templates that still parse; oracle: recovered panic whose innermost non-runtime frame lies in the repository, or a 1.5 s watchdog."),
+  level_note="Partial by nature: panics and non-termination are behaviours of the Go runtime that the pure model cannot exhibit (its functions are total by construction); the theorems cover the error plumbing, the sweep and the fuzzing cover sampled inputs. Include cycles (unbounded recursion, a process-fatal stack overflow) are excluded: acyclic registries only. Repeat counts of escape modifiers are author-controlled and exponential in memory: not swept beyond 3.",
+  design_ref="5 C13", trusted_base=INTERP_TB, assumptions=INTERP_ASSUME + ["panics raised inside libraries dyntpl calls (koykov/clock) are counted, not judged"])
+
+P("C20",
+  title="Numeric and date modifiers compute the mathematically right value",
+  technique="Rocq proof over an executable Flocq binary64 model of roundHelper (exact integer modes; precision modes exact whenever the scaling product is exact; the property's full statement refuted with a kernel-checked witness); model tied to the code on IEEE bit patterns by V-mode correspondence; exact rational rounding (math/big), Go's float64 operations and the clock formatter as oracles for rounding, arithmetic operand selection and dates",
+  level_text=("Theorems (Props/C20.v): round/ceil/floor (and truncation) return exactly the integer rounding of the input's real value for every finite float; precision 0 is the identity; for precisions 1..22 floorPrec/ceilPrec/roundPrec return the correctly rounded quotient whenever the product x*10^p is exact (computable test); the full statement 'exact at the requested number of decimals' is REFUTED (witness 1000000000000000.25, p=2: the code returns a value above x). "
+              "Each run compares the engine with the Flocq model bit for bit on floats at decimal boundaries x six modes x precisions 1..15 x pipe/alias/letter forms, with exact rational rounding, checks every math modifier over nine carrier kinds in pipe and call form against Go's float64 operation, and time::format / time::add over 16 layout globals, literal layouts, instants and carrier types against the clock library."),
+  level_note="Trusted: Coq kernel + vm_compute, Flocq, Go harness. Axioms: the standard library's classical reals and functional extensionality that Flocq's real-number layer uses (listed per theorem in the evidence). libm (sqrt cbrt exp log pow mod), strconv and koykov/clock are external: the engine is compared against the same libraries. Known findings: precision rounding with an inexact scaling product; roundPrec beyond the int64 range.",
+  design_ref="5 C20", trusted_base=[KERNEL, VMODE, HARNESS, "Flocq 4 (IEEE754.BinarySingleNaN, Bits) as the definition of binary64 arithmetic", "modelled, not verified: Go's math.Pow10 tables (transcribed), strconv float formatting (bits recovered by ParseFloat), libm and koykov/clock (oracle = same library)"],
+  assumptions=["Go's float64 arithmetic is IEEE-754 binary64 round-to-nearest-even", "time.Unix uses the process's local zone on both sides"])
